@@ -38,3 +38,14 @@ package storage
 //@   loop 1 invariant 0 - 1 <= rangeindex && rangeindex < len(logs)
 //@   loop 1 invariant forall j2 in 0..len(m.transactions) :: allocated(m.transactions[j2])
 //@   loop 1 invariant forall i1 in 0..rangeindex+1 :: typeis(logs[i1].Data, "ledger.RevertedTransactionLogPayload") ==> (exists j1 in 0..len(m.transactions) :: val(m.transactions[j1].ID) == val(as(logs[i1].Data, "ledger.RevertedTransactionLogPayload").RevertedTransactionID) && m.transactions[j1].Reverted)
+
+// C07: the in-memory store (the store of the engine's own tests) finds a recorded idempotency key wherever its entry sits
+// in the log -- whatever was logged before it, with or without a key -- and only reports an entry that carries the key
+// (the not-found error is a package-level value that is never reassigned)
+//@ assume sqlutils.ErrNotFound != nil
+//@ func (*storage.InMemoryStore).ReadLogWithIdempotencyKey
+//@   requires m != nil && (forall j0 in 0..len(m.logs) :: m.logs[j0] != nil)
+//@   ensures err == nil ==> ret0 != nil && ret0.IdempotencyKey == key // C07
+//@   ensures forall j1 in 0..len(m.logs) :: m.logs[j1].IdempotencyKey == key ==> err == nil // C07
+//@   modifies nothing
+//@   property C07
